@@ -161,7 +161,7 @@ def parseRef (fuel : Nat) (s : Scan) : Res (Val × Scan) :=
     if acc.isEmpty then .err
     else if !s1.eof && s1.cur == 32 then
       match s1.peek with
-      | (Option.none, _) => .err                    -- `scanner.peek()?`
+      | (Option.none, s2) => .ok (.ref (lossy acc) Option.none, s2)   -- `safe_peek()` at the end of the input
       | (some nx, s2) =>
         if nx == 34 then
           match s2.readQ with
